@@ -64,7 +64,7 @@ def _order_chooser():
     return choose
 
 
-def _scenario_blocks(mods, proto, src, ep):
+def _scenario_blocks(mods, proto, src, ep, dup_server_flight=False):
     from tlv.harness import pipeline as P
     from tlv.oracle import scenario as SC, quic_scenario as QS
     if proto == "tls":
@@ -77,7 +77,12 @@ def _scenario_blocks(mods, proto, src, ep):
     from tlv.sx.core import ctx
     c02.assume_cids_prefix_free(ctx(), meta)
     c02.assume_no_accidental_cid(ctx(), meta, dgrams)
-    return [(float(ts), fr) for fr, ts, _ in P.udp_frames(ep, dgrams)], keylog, meta
+    blocks = [(float(ts), fr) for fr, ts, _ in P.udp_frames(ep, dgrams)]
+    if dup_server_flight:
+        # the network delivers the server's first flight (Initial + Handshake: CRYPTO frames) a second time at the end of the capture
+        k = next(i for i, d in enumerate(dgrams) if d.from_server)
+        blocks.append((blocks[-1][0] + 1.0, blocks[k][1]))
+    return blocks, keylog, meta
 
 
 def _summ(out):
@@ -161,7 +166,7 @@ def run_config(cfg):
                 c.check(_same(one, two) and len(one) >= 6, "schedule-independent", "two runs wrote %d and %d packets" % (len(one), len(two)))
                 return {"outcome": "same", "validate": False}
             epa, epb = P.Endpoint(ipv=4, c_port=50000), P.Endpoint(ipv=4, c_port=50001)
-            ba, kla, _ = _scenario_blocks(mods, cfg["first"], SC.SymSrc("a."), epa)
+            ba, kla, _ = _scenario_blocks(mods, cfg["first"], SC.SymSrc("a."), epa, dup_server_flight=cfg["first"] == "quic")
             bb, klb, _ = _scenario_blocks(mods, cfg["second"], SC.SymSrc("b."), epb)
             argv = ["-i", "in.pcapng", "-o", "o.pcapng", "-s", "k.log"]
             klr = mods["tlexport.keylog_reader"]
@@ -288,7 +293,11 @@ def _replay_rerun(cfg, inp):
             return e2e.concrete_frames(ep, items), keylog
         qcfg = {"suite": 0x1301, "offered": [0x1301], "odcid_len": 8, "c_cid_len": 4, "s_cid_len": 8, "n_app": 2, "data_len": 1}
         dgrams, keylog, _ = QS.build(qcfg, src)
-        return e2e.concrete_udp_frames(ep, dgrams), keylog
+        pk = e2e.concrete_udp_frames(ep, dgrams)
+        if prefix == "a.":
+            k = next(i for i, dg in enumerate(dgrams) if dg.from_server)
+            pk.append((pk[k][0], pk[-1][1] + 1000000))          # the server's first flight delivered twice
+        return pk, keylog
     d = tempfile.mkdtemp(prefix="tlv-rerun-")
     try:
         pa, ka = capture(cfg["first"], "a.", P.Endpoint(ipv=4, c_port=50000))
